@@ -42,20 +42,6 @@ type c13Rec struct {
 	maxLive int
 }
 
-func c13Gid() uint64 {
-	var buf [64]byte
-	n := runtime.Stack(buf[:], false)
-	// "goroutine 123 ["
-	var id uint64
-	for _, ch := range buf[len("goroutine "):n] {
-		if ch < '0' || ch > '9' {
-			break
-		}
-		id = id*10 + uint64(ch-'0')
-	}
-	return id
-}
-
 func (r *c13Rec) sleepJitter() {
 	r.jmu.Lock()
 	k := r.jitter.Intn(10)
@@ -98,13 +84,13 @@ func (r *c13Rec) hook(ev string, o1, o2 any, a, b int) {
 			return
 		}
 		rec["w"] = r.widOf(o2.(*workerChan))
-		rec["c"] = r.gconn[c13Gid()]
+		rec["c"] = r.gconn[vfGid()]
 	case "wp.get.create", "wp.get.fail":
 		if o1.(*workerPool) != r.wp {
 			r.mu.Unlock()
 			return
 		}
-		rec["c"] = r.gconn[c13Gid()]
+		rec["c"] = r.gconn[vfGid()]
 	case "wp.send", "wp.recv", "wp.done":
 		ch := o1.(*workerChan)
 		w, ok := r.wid[ch]
@@ -208,7 +194,7 @@ func c13RunOne(t *testing.T, rng *rand.Rand, tw *vfTraceWriter, trNo int, cfg c1
 		prng := rand.New(rand.NewSource(rng.Int63()))
 		go func() {
 			defer wg.Done()
-			gid := c13Gid()
+			gid := vfGid()
 			for {
 				id := int(next.Add(1))
 				if id > cfg.nconns {
